@@ -82,6 +82,45 @@ func (x *confExec) doExtra(op *confOp, sessions *[]whipSession) bool {
 	w := x.w
 	c := w.c
 	switch op.Kind {
+	case "offer":
+		// a web client publishes a stream: the server creates a real
+		// PeerConnection under the client's lock (addUpConn)
+		sc := x.client(op.C)
+		if sc == nil || !sc.alive() {
+			return true
+		}
+		m := map[string]any{"type": "offer", "id": op.V, "label": "camera", "source": sc.id, "sdp": fullOffer(op.Flag)}
+		if sc.username != "" {
+			m["username"] = sc.username
+		}
+		if op.Sub != "" {
+			m["replace"] = op.Sub
+		}
+		sc.send(m, x.opIx)
+		c.Count("ops.offer", 1)
+		return true
+	case "closeup":
+		sc := x.client(op.C)
+		if sc == nil || !sc.alive() {
+			return true
+		}
+		sc.send(map[string]any{"type": "close", "id": op.V}, x.opIx)
+		c.Count("ops.closeup", 1)
+		return true
+	case "request":
+		sc := x.client(op.C)
+		if sc == nil || !sc.alive() {
+			return true
+		}
+		req := map[string]any{"": []string{"audio", "video"}}
+		if op.N == 1 {
+			req = map[string]any{"": []string{"audio"}}
+		} else if op.N == 2 {
+			req = map[string]any{}
+		}
+		sc.send(map[string]any{"type": "request", "request": req}, x.opIx)
+		c.Count("ops.request", 1)
+		return true
 	case "whip":
 		tok := op.V
 		simrt.GoEnv("whip-post", func() {
@@ -194,7 +233,13 @@ func genLifecyclePlan(tp *simrt.Tape, seed uint64, tier string) any {
 	n := 4 + tp.Draw(18)
 	for k := 0; k < n; k++ {
 		c := tp.Draw(p.Clients)
-		switch tp.Weighted(3, 3, 2, 3, 2, 4, 3, 2, 2, 3, 1, 2, 2, 2, 1, 2) {
+		switch tp.Weighted(3, 3, 2, 3, 2, 4, 3, 2, 2, 3, 1, 2, 2, 2, 1, 2, 4, 1, 2) {
+		case 16:
+			p.Ops = append(p.Ops, confOp{Kind: "offer", C: c, V: fmt.Sprintf("s%d-%d", c, tp.Draw(2)), Flag: tp.Chance(1, 3)})
+		case 17:
+			p.Ops = append(p.Ops, confOp{Kind: "closeup", C: c, V: fmt.Sprintf("s%d-%d", c, tp.Draw(2))})
+		case 18:
+			p.Ops = append(p.Ops, confOp{Kind: "request", C: c, N: tp.Draw(3)})
 		case 0:
 			u := users[tp.Draw(len(users))]
 			p.Ops = append(p.Ops, confOp{Kind: "join", C: c, Group: "g1", User: u.Name, Pass: u.Pass})
